@@ -374,6 +374,62 @@ func fineTouchWhileScanExpires(seed uint64) []lib.Case {
 	return []lib.Case{cr.finish("touch-vs-timeout-scan#"+strconv.FormatUint(seed, 10), seed, nil, nil)}
 }
 
+// ---- a FIN that lands while the timeout scan is in the middle of its round (one expired
+// message re-queued, two more to go): the scan must still time out the third ----
+func fineFinWhileScanExpires(seed uint64) []lib.Case {
+	cr := newFineCase(seed, 10)
+	cr.opCreateTopic(1)
+	cr.opCreateChan(1, 1)
+	k1 := cr.opConnect(false, false)
+	cr.opSub(k1, 1, 1)
+	cr.opRdy(k1, 3)
+	cr.opPub(1, 3, false, false)
+	if len(k1.held) != 3 {
+		return []lib.Case{cr.finish("fin-vs-timeout-scan-setup-failed#"+strconv.FormatUint(seed, 10), seed, nil, nil)}
+	}
+	cr.opRdy(k1, 0)
+	cr.opPauseChan(1, 1, true)
+	tags := make([]int, 0, 3)
+	for tg := range k1.held {
+		tags = append(tags, tg)
+	}
+	sort.Ints(tags) // delivery order = deadline order
+	bi, _, _ := cr.d.VerifHeld(tname(1), cname(1))
+	at := time.Now().Add(2 * time.Hour).UnixNano()
+	reached, release := nsqd.VerifArmPark("scan-inflight:after-pop", 1)
+	scanned := make(chan struct{})
+	go func() { cr.d.VerifScan(tname(1), cname(1), at, true); close(scanned) }()
+	ok := waitReached(reached, 3*time.Second)
+	cr.tag(fmt.Sprintf("scan-parked-after-first-pop=%v", ok))
+	// the consumer answers the SECOND message now: accepted, it is still in flight
+	second := tags[1]
+	code, _ := k1.c.cmdNoReply("FIN " + k1.held[second])
+	cr.tag("fin:" + respOf(code)[:3])
+	cr.ev(fmt.Sprintf("EOp (OFin %d %d) %s", k1.k, second, respOf(code))) // no snapshot: the scan is half-way
+	delete(k1.held, second)
+	release()
+	<-scanned
+	ai, _, _ := cr.d.VerifHeld(tname(1), cname(1))
+	var expired []string
+	after := tagsOf(ai)
+	for t := range tagsOf(bi) {
+		if !after[t] && t != second {
+			expired = append(expired, strconv.Itoa(t))
+			delete(k1.held, t)
+		}
+	}
+	sort.Strings(expired)
+	// linearisation recorded: the FIN (accepted before the scan reached that message), then the scan
+	cr.ev(fmt.Sprintf("EOp (OScanInFlight 1 1 %s) ROk", z(at)))
+	cr.ev(fmt.Sprintf("EExpired 1 1 true [%s]%%N", strings.Join(expired, ";")))
+	cr.tag(fmt.Sprintf("expired-by-the-parked-scan=%d", len(expired)))
+	cr.nontriv = true
+	cr.after()
+	cr.opScan(1, 1, true, scanAll) // whatever the interrupted round left behind must time out now
+	cr.opPauseChan(1, 1, false)
+	return []lib.Case{cr.finish("fin-vs-timeout-scan#"+strconv.FormatUint(seed, 10), seed, nil, nil)}
+}
+
 // ---- graceful Exit while a TOUCH is between its in-flight pop and its push back: the
 // message is in no set when the channel's backlog is written ----
 func fineExitWhileTouching(seed uint64) []lib.Case {
@@ -910,6 +966,7 @@ var fineScenarios = map[string]func(uint64) []lib.Case{
 	"exit-vs-pub":                    fineExitWhilePublishing,
 	"exit-vs-touch":                  fineExitWhileTouching,
 	"touch-vs-timeout-scan":          fineTouchWhileScanExpires,
+	"fin-vs-timeout-scan":            fineFinWhileScanExpires,
 	"touch-vs-empty":                 fineEmptyWhileTouching,
 	"dscan-vs-empty":                 fineEmptyVsDeferredScan,
 	"two-deletes-on-ephemeral-topic": fineTwoDeletesOnEphemeralTopic,
@@ -933,11 +990,11 @@ var fineScenarios = map[string]func(uint64) []lib.Case{
 
 // which forced interleavings each property's profile runs
 var fineByProfile = map[string][]string{
-	"c01": {"pump-vs-sub", "deliver-vs-disconnect", "touch-cap", "exit-vs-pub"},
+	"c01": {"pump-vs-sub", "deliver-vs-disconnect", "touch-cap", "exit-vs-pub", "fin-vs-timeout-scan"},
 	"c08": {"deliver-vs-empty", "sub-vs-topic-delete", "fin-vs-empty", "empty-vs-wakeup", "scan-vs-empty", "req-vs-empty", "pub-vs-topic-delete", "two-deletes-on-ephemeral-topic", "touch-vs-empty", "dscan-vs-empty"},
 	"c03": {"fin-vs-empty", "deliver-vs-empty", "pause-vs-pump"},
 	"c13": {"fin-vs-empty", "deliver-vs-empty", "touch-cap"},
 	"c02": {"deliver-vs-disconnect", "touch-then-scan", "touch-cap", "touch-vs-timeout-scan"},
-	"c04": {"touch-then-scan", "touch-cap", "touch-vs-timeout-scan"},
+	"c04": {"touch-then-scan", "touch-cap", "touch-vs-timeout-scan", "fin-vs-timeout-scan"},
 	"c05": {"exit-vs-deliver", "exit-vs-req", "exit-vs-timeout-scan", "exit-vs-deferred-scan", "deliver-vs-disconnect", "exit-vs-touch"},
 }
